@@ -109,7 +109,9 @@ func smallUintArray(n *refcbor.Node) bool {
 		return false
 	}
 	for _, it := range n.Items {
-		if it.Kind != refcbor.Uint || it.Val > 255 {
+		// an element is an unsigned integer ≤ 255 or, as in refUint, an unassigned simple value < 20,
+		// which the cbor package reads as that integer (documented as unsupported)
+		if !(it.Kind == refcbor.Uint && it.Val <= 255) && !(it.Kind == refcbor.Simple && it.FloatW == 0 && it.Val < 20) {
 			return false
 		}
 	}
@@ -137,7 +139,13 @@ func refHash(v []byte) (string, vclass) {
 	}
 	a, b := n.Items[0], n.Items[1]
 	if (a.Kind != refcbor.Uint && a.Kind != refcbor.Nint) || a.Val > 1<<63-1 || b.Kind != refcbor.Bytes || b.Indef {
-		if (a.Kind == refcbor.Uint || a.Kind == refcbor.Nint) && a.Val <= 1<<63-1 && (b.Kind == refcbor.Text || smallUintArray(b)) {
+		// the codec's other readings of the two fields (all classes of refUint/refString): an
+		// integer or an unassigned simple value < 20 as the algorithm; a byte or text string, null,
+		// undefined (both decode to an empty slice) or a smallUintArray as the value
+		aInt := ((a.Kind == refcbor.Uint || a.Kind == refcbor.Nint) && a.Val <= 1<<63-1) ||
+			(a.Kind == refcbor.Simple && a.FloatW == 0 && a.Val < 20)
+		bNull := b.Kind == refcbor.Simple && b.FloatW == 0 && (b.Val == 22 || b.Val == 23)
+		if aInt && !b.Indef && (b.Kind == refcbor.Bytes || b.Kind == refcbor.Text || bNull || smallUintArray(b)) {
 			return "", vLenient
 		}
 		return "", vMalformed
